@@ -545,14 +545,18 @@ func (d *drv) run(sc vScenario) {
 			for _, c := range held {
 				c.Close()
 			}
+			errText := ""
 			if err != nil {
-				d.tr.Emit(map[string]any{"ev": "HarnessProblem", "what": "load: " + err.Error()})
+				// the server did not report a result for this (re)load: the process died or stayed silent.  That is an
+				// observation about the server (a reload that neither loads nor reports), judged by the trace spec.
+				ok = false
+				errText = err.Error()
 			}
 			f := st.Frn
 			if f == nil {
 				f = frn0
 			}
-			d.tr.Emit(map[string]any{"ev": "Load", "cfg": cfgJSON(st.Cfg), "frn": f, "ok": ok, "err": ""})
+			d.tr.Emit(map[string]any{"ev": "Load", "cfg": cfgJSON(st.Cfg), "frn": f, "ok": ok, "err": errText})
 			if started && d.alive() {
 				if sc.Mode != "noprobe" { // probes are authenticated handshakes themselves: they would fill the replay history
 					d.probe("after-load")
